@@ -34,7 +34,9 @@ REQUIRED = ["mSdBegin", "sdDrainGet", "sdDrainCancel", "sdDrainEmpty", "sdPutSto
 
 def fault_scenarios(ctx: Ctx, only=None):
     """shutdown after an idle worker process died (SIGKILL from outside): every (wait, cancel_futures) form returns, is repeatable,
-    closes the executor, leaves no thread and no process (oracle only: Sys has no process faults)."""
+    closes the executor, leaves no thread and no process.  Sys has no process faults; the exchange on one worker connection with a
+    process that may die is the finite model Lts/Conn.lean (theorems dead_before_poll_returns, no_fault_returns,
+    blocks_only_in_recv_of_dead_worker): the observed outcome must be one Conn.outcomes allows."""
     import os
 
     from .common import InfraError, finish_json_child, start_json_child
@@ -45,6 +47,11 @@ def fault_scenarios(ctx: Ctx, only=None):
         plans += [dict(workers=nw, wait=w, cancel=c, resolver=r, kill_all=ka) for nw in (1, 2, 3) for w in (0, 1) for c in (0, 1) for r in (0, 1) for ka in (0, 1)]
     bad = []
     repo = os.environ.get("VERIF_REPO", "/repo")
+    # what the Lean model Conn (one worker connection, process faults) allows for a process that is reapable before poll():
+    # theorem dead_before_poll_returns; the runner waits for reapability, so "returned" is the only outcome
+    allowed = ctx.model.ask("conn_outcomes", proc="reapable", faults=True)
+    if allowed != ["returned"] or sorted(ctx.model.ask("conn_outcomes", proc="running", faults=True)) != ["blocked", "returned"]:
+        raise InfraError("Conn.outcomes contradicts theorems dead_before_poll_returns / shutdown_can_block_after_kill: %r" % (allowed,))
     for k in range(0, len(plans), 6):
         hs = [(p, start_json_child(["vh.kill_shutdown_runner"] + [str(int(p[x])) for x in ("workers", "wait", "cancel", "resolver", "kill_all")])) for p in plans[k:k + 6]]
         for p, h in hs:
@@ -59,6 +66,9 @@ def fault_scenarios(ctx: Ctx, only=None):
             ctx.case({"shutdown_after_worker_killed": p})
             ctx.count("fault.shutdown_after_worker_killed")
             problems = []
+            observed = "returned" if o["shutdown"] == "returned" else ("blocked" if o["shutdown"] == "hang" else o["shutdown"])
+            if observed not in allowed:
+                ctx.count("fault.outcome_outside_Conn")
             if o["shutdown"] != "returned":
                 problems.append("shutdown(wait=%s, cancel_futures=%s): %s" % (o["wait"], o["cancel_futures"], o["shutdown"]))
             else:
